@@ -361,6 +361,47 @@ tokenizer = cssutils.tokenize2.Tokenizer()
 savedTokens = []
 
 
+class _SorIter:
+    """Iterator over tokens. While armed an S token is dropped if it is
+    followed by anything in ``until`` or by a comment; the first token that
+    is neither S nor COMMENT ends that mode."""
+
+    def __init__(self, tokens, types):
+        self._tokens = iter(tokens)
+        self._types = types
+        self._armed = False
+        self._until = ''
+        self._pending = []
+
+    def arm(self, until):
+        self._armed = True
+        self._until = until
+
+    def __iter__(self):
+        return self
+
+    def __next__(self):
+        if self._pending:
+            return self._pending.pop(0)
+        token = next(self._tokens)
+        if not self._armed:
+            return token
+        if token[0] == self._types.S:
+            try:
+                next_ = next(self._tokens)
+            except StopIteration:
+                return token
+            if next_[1] in self._until or next_[0] == self._types.COMMENT:
+                # omit S as e.g. ``,`` has been found, pass COMMENT
+                return next_
+            self._pending.append(next_)
+            return token
+        if token[0] != self._types.COMMENT:
+            # normal mode again
+            self._armed = False
+        return token
+
+
 class ProdParser:
     """Productions parser."""
 
@@ -405,34 +446,16 @@ class ProdParser:
             return text
 
     def _SorTokens(self, tokens, until=',/'):
-        """New tokens generator which has S tokens removed,
-        if followed by anything in ``until``, normally a ``,``."""
-        for token in tokens:
-            if token[0] == self.types.S:
-                try:
-                    next_ = next(tokens)
-                except StopIteration:
-                    yield token
-                else:
-                    if next_[1] in until:
-                        # omit S as e.g. ``,`` has been found
-                        yield next_
-                    elif next_[0] == self.types.COMMENT:
-                        # pass COMMENT
-                        yield next_
-                    else:
-                        yield token
-                        yield next_
+        """Tokens iterator which has S tokens removed,
+        if followed by anything in ``until``, normally a ``,``.
 
-            elif token[0] == self.types.COMMENT:
-                # pass COMMENT
-                yield token
-            else:
-                yield token
-                break
-        # normal mode again
-        for token in tokens:
-            yield token
+        The same iterator is re-armed for every term instead of wrapping the
+        previous one: the nesting depth must not grow with the number of
+        terms of a value."""
+        if not isinstance(tokens, _SorIter):
+            tokens = _SorIter(tokens, self.types)
+        tokens.arm(until)
+        return tokens
 
     def parse(  # noqa: C901
         self,
